@@ -37,6 +37,9 @@ type VM struct {
 	// constructors - the constructors this execution has given to types it does not own
 	// (types exported by a library are shared by every execution of the process)
 	constructors map[Element]FuncExecutor
+
+	// ownTypes - the types created by this execution (its own predefined values are its own as well)
+	ownTypes map[Element]bool
 }
 
 type ElementMap = map[string]Element
@@ -194,6 +197,28 @@ func (vm *VM) UnwindCallStack(depth int) {
 	for vm.csCount > depth && vm.csCount > 0 {
 		vm.PopCallFrame()
 	}
+}
+
+// OwnType - record a type created by this execution
+func (vm *VM) OwnType(classRef Element) {
+	if vm.ownTypes == nil {
+		vm.ownTypes = map[Element]bool{}
+	}
+	vm.ownTypes[classRef] = true
+}
+
+// OwnsType - whether the type belongs to this execution alone: it has created it, or it is one of its
+// predefined values; any other type (a library's) is shared with the other executions of the process
+func (vm *VM) OwnsType(classRef Element) bool {
+	if vm.ownTypes[classRef] {
+		return true
+	}
+	for _, g := range vm.globals {
+		if g == classRef {
+			return true
+		}
+	}
+	return false
 }
 
 // SetConstructorOf - replace the constructor of a type for this execution only
